@@ -85,6 +85,31 @@ def h_occupation(env, mapping, n, utd, n_electrons=None, spin=None, canary=False
         PB.check_action(env, inp, q, ref, enc, fn, f"{mapping} utd={utd}: map(a_{p}^+ a_{p}) |Enc f> = f_{p} |Enc f>", domain=dom, domain_fn=dom_fn)
 
 
+def h_containers(env, mapping, n, utd):
+    """AUXILIARY enumerated shape (no solver role): the encoder is checked above on integer numpy arrays; occupation vectors
+    also arrive as lists / tuples (VQESolver ref_state) and as boolean / float arrays (mo_occ > 0). Every container must
+    be encoded like the integer array of the same occupations."""
+    import warnings
+    import numpy as np
+    from symx import shim
+    from tangelo.toolboxes.qubit_mappings.statevector_mapping import get_mapped_vector
+    bad = []
+    with shim.concrete_mode(), warnings.catch_warnings():
+        warnings.simplefilter("ignore")
+        for f in itertools.product((0, 1), repeat=n):
+            ref = tuple(int(x) for x in get_mapped_vector(np.array(f, dtype=int), mapping, utd))
+            for nm, v in (("list", list(f)), ("tuple", tuple(f)), ("bool array", np.array(f, dtype=bool)),
+                          ("float array", np.array(f, dtype=float)), ("list of bool", [bool(x) for x in f])):
+                try:
+                    got = tuple(int(x) for x in get_mapped_vector(v, mapping, utd))
+                except Exception as e:       # noqa
+                    got = f"{type(e).__name__}: {e}"
+                if got != ref:
+                    bad.append((f, nm, got, ref))
+    env.check_true(not bad, f"get_mapped_vector[{mapping}, up_then_down={utd}, n={n}] encodes every container type like the integer array",
+                   detail=str(bad[:3]))
+
+
 # ------------------------------------------------------------------ (b) reference states
 def expected_reference(n, n_electrons, spin):
     """interleaved occupation vector of the reference determinant: lowest n_alpha alpha and n_beta beta orbitals"""
@@ -178,6 +203,10 @@ def shapes(tier, seed):
             for utd in (False, True):
                 out.append(Shape(f"occupation/scBK/n{n}/N{ne}s{sp}/utd{int(utd)}", h_occupation,
                                  dict(mapping="scbk", n=n, utd=utd, n_electrons=ne, spin=sp), modules=MODS))
+    for mapping in ("JW", "BK", "JKMN", "scBK"):
+        for utd in (False, True):
+            for n in ((4, 6) if quick else (2, 4, 6, 8)):
+                out.append(Shape(f"aux/containers/{mapping}/n{n}/utd{int(utd)}", h_containers, dict(mapping=mapping, n=n, utd=utd), modules=()))
     out.append(Shape("canary/occupation/BK", h_occupation, dict(mapping="BK", n=4, utd=True, canary=True), modules=MODS, canary=True))
     out.append(Shape("canary/occupation/scBK", h_occupation, dict(mapping="scbk", n=6, utd=False, n_electrons=3, spin=1, canary=True),
                      modules=MODS, canary=True))
